@@ -36,6 +36,9 @@ def gen_cases(tier, seed):
             cases.append({"kind": "se", "cls": cls, "rs": f"C10s:{seed}:{cls}:{i}"})
     for i in range(max(12, n // 2)):
         cases.append({"kind": "pct", "cls": "kMinPathErrorCycles", "rs": f"C10p:{seed}:{i}"})
+    for cls in ("kLeastAbsErrorsCycles", "kMinPathErrorCycles"):
+        for i in range(max(12, n // 2)):
+            cases.append({"kind": "ign", "cls": cls, "rs": f"C10it:{seed}:{cls}:{i}", "trusted": True})
     return cases
 
 
@@ -214,8 +217,8 @@ def run_cons(case, viol, obs):
 
 def run_ign(case, viol, obs):
     rng = gen.rng_for(case["rs"]); cls = case["cls"]
-    node = rng.random() < 0.2
-    base = base_for(cls, rng, node, exact=True if cls in W.FD else None)
+    node = rng.random() < 0.2 and not case.get("trusted")
+    base = base_for(cls, rng, node, exact=(True if cls in W.FD else (True if case.get("trusted") and rng.random() < 0.7 else None)))
     elems = base["nodes"] if node else base["edges"]
     if len(elems) < 2:
         return None, False, None
@@ -225,7 +228,7 @@ def run_ign(case, viol, obs):
     if cls in ("kMinPathError", "kMinPathErrorCycles", "kLeastAbsErrorsCycles") and rng.random() < 0.4:
         kw0["k"] = None         # the model then derives k from the non-ignored part: ignoring and scale 0 must give the same k
     trusted_variant = False
-    if cls in ("kLeastAbsErrorsCycles", "kMinPathErrorCycles") and not node and rng.random() < 0.5:
+    if cls in ("kLeastAbsErrorsCycles", "kMinPathErrorCycles") and not node and (case.get("trusted") or rng.random() < 0.5):
         # the caller trusts a set of edges that includes the element: ignoring it and scaling it by 0 must then agree as well (the trusted
         # set is the same user assumption in all variants, and an ignored element is documented to drop out of it)
         trusted_variant = True
@@ -233,7 +236,17 @@ def run_ign(case, viol, obs):
             kw0["trusted_edges_for_safety"] = gen.jl(list(dict.fromkeys([e] + rng.sample(base["edges"], rng.randint(1, len(base["edges"]))))))
         else:
             kw0["trusted_edges_for_safety_percentile"] = rng.choice([0, 25, 50])
-        if rng.random() < 0.6:
+        r_ = rng.random() * (0.6 if case.get("trusted") else 1.0)
+        if r_ < 0.45:
+            # a detour u -> z -> v beside an existing edge: (u,z) carries an outlier value and is the element to switch off, (z,v) carries 0,
+            # and k is tight - a solution that is forced through the switched-off edge has to pay for it
+            (u_, v_) = rng.choice(base["edges"]); z_ = "zdet"
+            base["nodes"].append(z_); base["edges"] += [(u_, z_), (z_, v_)]
+            base["flow"][(u_, z_)] = 47 if base["wt"] == "int" else 47.5; base["flow"][(z_, v_)] = 0 if base["wt"] == "int" else 0.0
+            e = (u_, z_); ej = gen.jl(e); kw0["k"] = max(1, len(base["planted"]))
+            if "trusted_edges_for_safety" in kw0:
+                kw0["trusted_edges_for_safety"] = gen.jl(list(dict.fromkeys([e] + [tuple(x) for x in kw0["trusted_edges_for_safety"]])))
+        elif r_ < 0.8:
             base["flow"][e] = 47 if base["wt"] == "int" else 47.5      # an outlier value (in every variant): the optimum without the element tends to avoid it
     variants = {"ignore": (dict(kw0, elements_to_ignore=[ej]), {}, [])}
     big = 97 if base["wt"] == "int" else 97.5
@@ -243,7 +256,8 @@ def run_ign(case, viol, obs):
         variants["ignore+missing"] = (dict(kw0, elements_to_ignore=[ej]), {}, [e])
     if cls in W.ERR:
         variants["scale0"] = (dict(kw0, error_scaling=[[ej, 0]]), {}, [])
-        variants["scale0+garbage"] = (dict(kw0, error_scaling=[[ej, 0]]), {e: big}, [])
+        if not trusted_variant:
+            variants["scale0+garbage"] = (dict(kw0, error_scaling=[[ej, 0]]), {e: big}, [])
         variants["ignore+scale1"] = (dict(kw0, elements_to_ignore=[ej], error_scaling=[[ej, 1]]), {}, [])
     M.TRACE.install()
     out = {}; caps = {}
